@@ -24,8 +24,8 @@ Definition winv (s : wrk) : Prop :=
 Lemma handler_not_done o : done_res (handler o) = None.
 Proof. destruct o; reflexivity. Qed.
 
-Lemma start_inv st q cl cm j : wcoh st -> (forall x, cm x = sview st x) ->
-  winv (mkWrk st q (Some (start st j)) cl cm).
+Lemma start_inv st q cl cm gn j : wcoh st -> (forall x, cm x = sview st x) ->
+  winv (mkWrk st q (Some (start st j)) cl cm gn).
 Proof.
   intros Hc Hcm. unfold winv, start, rkey. cbn [k_cur k_st k_committed r_job r_prog r_sv0 r_touched r_started].
   split; [|split; [apply handler_not_done|]].
@@ -42,8 +42,8 @@ Proof.
 Qed.
 
 (* a change of the cache that changes no answer of Peek (the LRU order) is invisible to the invariant *)
-Lemma winv_ext st st' q cur cl cm : (forall x, cview st' x = cview st x) -> wsr st' = wsr st ->
-  winv (mkWrk st q cur cl cm) -> winv (mkWrk st' q cur cl cm).
+Lemma winv_ext st st' q cur cl cm gn : (forall x, cview st' x = cview st x) -> wsr st' = wsr st ->
+  winv (mkWrk st q cur cl cm gn) -> winv (mkWrk st' q cur cl cm gn).
 Proof.
   intros Hv Hs. unfold winv. cbn [k_cur k_st k_committed k_queue].
   assert (Hsv : forall x, sview st' x = sview st x) by (intros x; unfold sview; rewrite Hs; reflexivity).
@@ -59,7 +59,7 @@ Proof.
   intros H. unfold wcall. destruct (j_op j) as [k|k d|k d|k|k d|k d|k d]; try apply winv_enqueue; try exact H.
   pose proof (peek_get (wc (k_st s)) k) as Hp. destruct (c_get (wc (k_st s)) k) as [c' r] eqn:Eg. cbn [fst] in Hp.
   destruct r as [v|]; [|apply winv_enqueue; exact H]. cbn [fst].
-  destruct s as [st q cur cl cm]. cbn [k_st k_queue k_cur k_closed k_committed] in *.
+  destruct s as [st q cur cl cm gn]. cbn [k_st k_queue k_cur k_closed k_committed k_gone] in *.
   apply (winv_ext st); [intros x; unfold cview; cbn [wc]; apply Hp | reflexivity | exact H].
 Qed.
 
@@ -107,15 +107,34 @@ Proof.
   split; [intros k v H; discriminate|]. split; [intros x; reflexivity | reflexivity].
 Qed.
 
+(* a caller that gives up changes nothing but the flag *)
+Lemma wabandon_spec s s' : wabandon s = Some s' ->
+  k_st s' = k_st s /\ k_queue s' = k_queue s /\ k_cur s' = k_cur s /\ k_committed s' = k_committed s.
+Proof.
+  unfold wabandon. destruct (k_cur s); [|discriminate]. destruct (k_gone s); [discriminate|].
+  intros H. inversion H; subst. cbn. repeat split.
+Qed.
+Lemma gstep_abandon c deep g w g' a : gstep c deep g (GAbandon w) = Some (g', a) ->
+  exists s', wabandon (g w) = Some s' /\ g' = updm g w s' /\ a = ARefused ECtx.
+Proof.
+  cbn [gstep]. destruct ((w <? 0) || (g_n c <=? w)); [discriminate|]. destruct (wabandon (g w)) as [s'|]; [|discriminate].
+  intros H. inversion H; subst. exists s'. repeat split.
+Qed.
+Lemma winv_abandon s s' : wabandon s = Some s' -> winv s -> winv s'.
+Proof.
+  intros H Hw. destruct (wabandon_spec _ _ H) as (E1 & E2 & E3 & E4). unfold winv in *. rewrite E1, E2, E3, E4. exact Hw.
+Qed.
+
 Lemma minv_gstep c deep g l g' a : minv g -> gstep c deep g l = Some (g', a) -> minv g'.
 Proof.
-  intros Hg Hs. destruct l as [j|w| |cid]; cbn [gstep] in Hs; [| | |discriminate].
+  intros Hg Hs. destruct l as [j|w| |cid|wa]; [| | |cbn [gstep] in Hs; discriminate|]; [cbn [gstep] in Hs | cbn [gstep] in Hs | cbn [gstep] in Hs |].
   - destruct (loc_of c (key_of (j_op j)) <? 0); [inversion Hs; subst; exact Hg|].
     pose proof (winv_wcall deep (g (loc_of c (key_of (j_op j)))) j (Hg _)) as Hw.
     destruct (wcall deep (g (loc_of c (key_of (j_op j)))) j) as [s' a']. inversion Hs; subst. apply minv_updm; assumption.
   - destruct ((w <? 0) || (g_n c <=? w)); [discriminate|]. destruct (wstep (g w)) as [[s' a']|] eqn:Ew; [|discriminate].
     inversion Hs; subst. apply minv_updm; [exact Hg | eapply winv_wstep; eauto].
   - inversion Hs; subst. intros w. apply winv_wstop. apply Hg.
+  - destruct (gstep_abandon _ _ _ _ _ _ Hs) as (s' & Ha & -> & _). apply minv_updm; [exact Hg | eapply winv_abandon; eauto].
 Qed.
 
 Theorem sched_inv c deep : forall ls g g' tr, minv g -> grun c deep g ls = Some (g', tr) -> minv g'.
@@ -286,7 +305,7 @@ Qed.
 Lemma oinv_gstep c deep g tr l g' a : minv g -> oinv c g tr -> gstep c deep g l = Some (g', a) -> oinv c g' (tr ++ [(l, a)]).
 Proof.
   intros Hm Ho Hs w. destruct (Ho w) as (done & Hq & Hf). unfold wq, ws in *. rewrite !flat_map_snoc.
-  destruct l as [j|w0| |cid]; cbn [gstep] in Hs; [| | |discriminate].
+  destruct l as [j|w0| |cid|wa]; [| | |cbn [gstep] in Hs; discriminate|]; [cbn [gstep] in Hs | cbn [gstep] in Hs | cbn [gstep] in Hs |].
   - (* call *) cbn [ws1]. rewrite app_nil_r. set (wj := loc_of c (key_of (j_op j))) in *.
     destruct (wj <? 0) eqn:En.
     { inversion Hs; subst. cbn [wq1]. rewrite app_nil_r. exists done. split; assumption. }
@@ -326,6 +345,9 @@ Proof.
     + inversion Ew; subst s' a; clear Ew. cbn [ws1]. rewrite Z.eqb_refl, map_app. cbn [map]. rewrite Hstep.
       unfold curp. cbn [k_cur k_queue r_job]. exists done. split; [exact Hq | apply follows_snoc; exact Hf].
   - (* stop *) inversion Hs; subst. cbn [wq1 ws1]. rewrite !app_nil_r. exists done. unfold curp, wstop. cbn [k_cur k_queue]. split; assumption.
+  - (* a caller gives up *) destruct (gstep_abandon _ _ _ _ _ _ Hs) as (s' & Ha & -> & ->). cbn [wq1 ws1]. rewrite !app_nil_r.
+    destruct (wabandon_spec _ _ Ha) as (_ & E2 & E3 & _). exists done. unfold curp in *.
+    destruct (Z.eq_dec w wa) as [->|Hne]; [rewrite updm_same, E2, E3 | rewrite updm_other by exact Hne]; split; assumption.
 Qed.
 
 Lemma oinv_grun c deep : forall ls g tr0 g' tr, minv g -> oinv c g tr0 -> grun c deep g ls = Some (g', tr) -> oinv c g' (tr0 ++ tr).
@@ -351,7 +373,7 @@ Proof. intros w. split; [intros r H; discriminate | constructor]. Qed.
 
 Lemma rinv_gstep c deep g l g' a : minv g -> rinv c g -> gstep c deep g l = Some (g', a) -> rinv c g' /\ step_routed c (l, a).
 Proof.
-  intros Hm Hr Hs. destruct l as [j|w0| |cid]; cbn [gstep] in Hs; [| | |discriminate].
+  intros Hm Hr Hs. destruct l as [j|w0| |cid|wa]; [| | |cbn [gstep] in Hs; discriminate|]; [cbn [gstep] in Hs | cbn [gstep] in Hs | cbn [gstep] in Hs |].
   - split; [|exact I]. set (wj := loc_of c (key_of (j_op j))) in *. destruct (wj <? 0); [inversion Hs; subst; exact Hr|].
     destruct (wcall deep (g wj) j) as [s' a'] eqn:Ew. inversion Hs; subst g' a'; clear Hs. intros w.
     destruct (Z.eq_dec w wj) as [->|Hne]; [|rewrite updm_other by exact Hne; apply Hr].
@@ -375,6 +397,9 @@ Proof.
       destruct (Z.eq_dec w w0) as [->|Hne]; [rewrite updm_same|rewrite updm_other by exact Hne; apply Hr]. cbn [k_cur k_queue].
       split; [intros r0 H0; inversion H0; subst; unfold rkey; cbn [r_job]; apply Hc; reflexivity | exact Hq].
   - inversion Hs; subst. split; [|exact I]. intros w. unfold wstop. cbn [k_cur k_queue]. apply Hr.
+  - destruct (gstep_abandon _ _ _ _ _ _ Hs) as (s' & Ha & -> & ->). split; [|exact I]. intros w.
+    destruct (wabandon_spec _ _ Ha) as (_ & E2 & E3 & _).
+    destruct (Z.eq_dec w wa) as [->|Hne]; [rewrite updm_same, E2, E3 | rewrite updm_other by exact Hne]; apply Hr.
 Qed.
 
 Lemma rinv_grun c deep : forall ls g g' tr, minv g -> rinv c g -> grun c deep g ls = Some (g', tr) -> Forall (step_routed c) tr.
@@ -397,7 +422,7 @@ Definition store_calls_of (k : Z) (tr : list (glabel * answer)) : list Z :=
 Lemma queued_of_wq c k tr : queued_of k tr = map fst (filter (fun p => snd p =? k) (wq c (loc_of c k) tr)).
 Proof.
   unfold queued_of, wq. induction tr as [|[l a] tr IH]; [reflexivity|]. cbn [flat_map]. rewrite filter_app, map_app, <- IH. f_equal.
-  destruct l as [j| | |]; try reflexivity. destruct a; try reflexivity. cbn [wq1].
+  destruct l as [j| | | |]; try reflexivity. destruct a; try reflexivity. cbn [wq1].
   destruct (key_of (j_op j) =? k) eqn:E.
   - apply Z.eqb_eq in E. rewrite E, Z.eqb_refl. cbn [filter jp snd]. rewrite E, Z.eqb_refl. reflexivity.
   - destruct (loc_of c (key_of (j_op j)) =? loc_of c k); [|reflexivity]. cbn [filter jp snd]. rewrite E. reflexivity.
@@ -408,7 +433,7 @@ Lemma store_calls_of_ws c k tr : Forall (step_routed c) tr ->
 Proof.
   unfold store_calls_of, ws. induction tr as [|[l a] tr IH]; intros HF; [reflexivity|]. inversion HF; subst.
   cbn [flat_map]. rewrite filter_app, map_app, filter_app, map_app, <- (IH H2). f_equal.
-  destruct l as [|w| |]; try reflexivity. destruct a; try reflexivity. cbn [ws1]. cbn [step_routed] in H1.
+  destruct l as [|w| | |]; try reflexivity. destruct a; try reflexivity. cbn [ws1]. cbn [step_routed] in H1.
   destruct (w =? loc_of c k) eqn:Ew.
   - cbn [filter snd]. destruct (is_store_ev e); [|reflexivity]. cbn [map sk fst snd filter andb]. destruct (ev_key e =? k); reflexivity.
   - cbn [filter map]. destruct (ev_key e =? k) eqn:Ek; [|rewrite andb_false_r; reflexivity].
@@ -465,7 +490,18 @@ Proof.
   destruct (done_res p') as [x|] eqn:Ed; [|inversion Ew].
   apply done_res_some in Ed. subst p'.
   assert (Hx : x = RNil /\ e0 = e /\ k_st s' = st').
-  { unfold next_job in Ew. destruct (k_queue (g w)); inversion Ew; subst; auto. }
+  { unfold next_job in Ew. destruct (k_gone (g w)); destruct (k_queue (g w)); inversion Ew; subst; auto. }
   destruct Hx as (-> & -> & Hst). cbn [safe] in Hs1. destruct Hs1 as (_ & _ & _ & Hnil). destruct (Hnil eq_refl) as [A B].
   unfold mcache_at, mstore_at. rewrite Hk, (Hc r eq_refl), updm_same, Hst. split; [exact A | exact B].
+Qed.
+
+(* a caller that gives up while its request is being handled changes neither the caches, nor the store, nor what was
+   committed: the handlers never look at the context *)
+Theorem sched_abandon_keeps_state c deep g w g' a : gstep c deep g (GAbandon w) = Some (g', a) ->
+  a = ARefused ECtx /\ forall k, mcache_at c g' k = mcache_at c g k /\ mstore_at c g' k = mstore_at c g k
+                                 /\ mcommitted_at c g' k = mcommitted_at c g k.
+Proof.
+  intros H. destruct (gstep_abandon _ _ _ _ _ _ H) as (s' & Ha & -> & ->). split; [reflexivity|].
+  destruct (wabandon_spec _ _ Ha) as (E1 & _ & _ & E4). intros k. unfold mcache_at, mstore_at, mcommitted_at.
+  destruct (Z.eq_dec (loc_of c k) w) as [E|E]; [rewrite E, updm_same, E1, E4 | rewrite updm_other by exact E]; repeat split.
 Qed.
